@@ -370,6 +370,70 @@ pub fn run_resolver() {
     }
 }
 
+// call-eval: `call <np> {<P|poison> <name ok 0|1>}*np <na> {<d|o> <A|none|poison>}*na`
+//   a call of a function with np parameters by na arguments (d: a plain Deref expression, o: the same in parentheses),
+//   through the public Analyzer::declare / Analyzer::analyze; answers the first of the four call errors or `ok`
+pub fn run_call() {
+    use penne::alpha::common::*;
+    use penne::alpha::error::Poison;
+    use penne::alpha::value_type::ValueType;
+    let loc = || penne::alpha::lexer::Location { source_filename: String::new(), span: 0..0, line_number: 1, line_offset: 1 };
+    let stdin = std::io::stdin();
+    for line in stdin.lock().lines() {
+        let line = line.unwrap();
+        let w: Vec<String> = line.split(' ').filter(|x| !x.is_empty()).map(|x| x.to_string()).collect();
+        let r = std::panic::catch_unwind(move || {
+            let mut i = 1;
+            let np: usize = w[i].parse().unwrap();
+            i += 1;
+            let mut parameters = Vec::new();
+            for k in 0..np {
+                let value_type = if w[i] == "poison" { Err(Poison::Poisoned) } else { Ok(P { s: w[i].as_bytes(), i: 0 }.cty()) };
+                let name = if w[i + 1] == "1" { Ok(cid(100 + k as u32)) } else { Err(Poison::Poisoned) };
+                parameters.push(Parameter { name, value_type, location_of_type: loc() });
+                i += 2;
+            }
+            let na: usize = w[i].parse().unwrap();
+            i += 1;
+            let mut arguments = Vec::new();
+            for k in 0..na {
+                let deref_type = match w[i + 1].as_str() {
+                    "none" => None,
+                    "poison" => Some(Err(Poison::Poisoned)),
+                    t => Some(Ok(P { s: t.as_bytes(), i: 0 }.cty())),
+                };
+                let deref = Expression::Deref {
+                    reference: Reference { base: Ok(cid(200 + k as u32)), steps: Vec::new(), address_depth: 0, location: loc(), location_of_unaddressed: loc() },
+                    deref_type,
+                };
+                arguments.push(if w[i] == "d" { deref } else { Expression::Parenthesized { inner: Box::new(deref), location: loc() } });
+                i += 2;
+            }
+            let callee = Declaration::FunctionHead {
+                name: cid(50), parameters, return_type: Ok(ValueType::Void), flags: Default::default(),
+                location_of_declaration: loc(), location_of_return_type: loc(),
+            };
+            let caller = Declaration::Function {
+                name: cid(51), parameters: Vec::new(),
+                body: Ok(FunctionBody { statements: vec![Statement::MethodCall { name: cid(50), builtin: None, arguments }], return_value: None, return_value_identifier: cid(52) }),
+                return_type: Ok(ValueType::Void), flags: Default::default(), location_of_declaration: loc(), location_of_return_type: loc(),
+            };
+            let mut analyzer = penne::alpha::analyzer::Analyzer::default();
+            analyzer.declare(&callee);
+            analyzer.declare(&caller);
+            let out = format!("{:?}", analyzer.analyze(caller));
+            for n in ["TooFewArguments", "TooManyArguments", "ArgumentMissingAddress", "ArgumentTypeMismatch"] {
+                if out.contains(n) { return n.to_string(); }
+            }
+            "ok".to_string()
+        });
+        match r {
+            Ok(s) => println!("{}", s),
+            Err(_) => println!("PANIC"),
+        }
+    }
+}
+
 pub fn run_lint() {
     use penne::alpha::common::{Declaration, Expression};
     let loc = || penne::alpha::lexer::Location { source_filename: String::new(), span: 0..0, line_number: 1, line_offset: 1 };
